@@ -31,7 +31,8 @@ REQUIRED_MONITORS = ["q_calc_positive_increasing", "linear", "gaussian_hankel_pa
 REQUIRED_BUCKETS = {"quick": ["grid:linear", "grid:log", "n:1", "n:2..9", "n:10..200", "gaussians:1", "gaussians:>1",
                               "acceptance:open", "acceptance:cut", "via:Gxi", "via:DirectModel", "wavelength:short",
                               "acceptance:on-data-tof", "acceptance:on-data-mono", "order:permuted",
-                              "via:DirectModel:data-edited-in-place", "grid:log-full-range"]}
+                              "via:DirectModel:data-edited-in-place", "grid:log-full-range",
+                              "via:Gxi:long-log-grid", "linear:curves-ending-at-different-q"]}
 REQUIRED_BUCKETS["thorough"] = REQUIRED_BUCKETS["quick"]
 
 
@@ -88,6 +89,23 @@ def run_transform(case, rec):
     rhs = a*T.apply(f) + b*T.apply(g)
     scale = float(np.max(np.abs(T.apply(np.abs(a)*f + np.abs(b)*g)))) + 1e-300
     rec.check("linear", bool(np.all(np.abs(lhs - rhs) <= 1e-11*scale)), dict(ctx, worst=float(np.max(np.abs(lhs - rhs)))/scale))
+    # linearity over curves that end at different q (cut-off curves, single-q impulses): the map is one fixed
+    # linear map of the whole calculated I(q) vector
+    m1, m2 = sorted(int(x) for x in rng.integers(1, len(q), 2))
+    f2, g2 = np.where(np.arange(len(q)) <= m1, f, 0.0), np.where(np.arange(len(q)) <= m2, 1.0 + g, 0.0)
+    e1, e2 = np.zeros(len(q)), np.zeros(len(q))
+    e1[m1], e2[min(m2 + 1, len(q) - 1)] = 1.0, 1.0
+    for nm, (u, v_) in (("cut-off curves", (f2, g2)), ("impulses", (e1, e2)), ("impulse and full curve", (e2, f))):
+        lhs2 = T.apply(a*u + b*v_)
+        rhs2 = a*T.apply(u) + b*T.apply(v_)
+        sc2 = float(np.max(np.abs(T.apply(np.abs(a)*np.abs(u) + np.abs(b)*np.abs(v_))))) + 1e-300
+        rec.check("linear", bool(np.all(np.abs(lhs2 - rhs2) <= 1e-9*sc2)),      # (G - G(0) cancels; rounding of ~5e4-term sums)
+                  dict(ctx, curves=nm, last_nonzero_index=[m1, m2], nq=len(q), worst=float(np.max(np.abs(lhs2 - rhs2)))/sc2))
+    last = np.zeros(len(q))
+    last[-1] = 1.0
+    rec.check("linear", bool(np.any(T.apply(last) != 0.0)),
+              dict(ctx, curves="impulse at the last calculated q: it is part of the integral", got=T.apply(last)[:4]))
+    rec.bucket("linear:curves-ending-at-different-q")
     # the acceptance cut in q (arcsin(q lam / 2 pi) <= zaccept)
     qcut_open = 2*math.pi/lam*math.sin(min(zopen, math.pi/2)) if zopen <= math.pi/2 else 2*math.pi/lam
     qlo, qhi = float(q[0]), min(float(q[-1]), qcut_open)
@@ -190,10 +208,20 @@ def run_direct(case, rec):
     """Through the public interface: Gxi / DirectModel on SESANS data; the background must not leak in."""
     from sasmodels import direct_model, core as sascore, data as sdata
     rng = core.rng_for(case["seed"], PROP, "direct")
-    for rep in range(6):
+    for rep in range(8):
         xi = np.linspace(200.0, 8000.0, int(rng.integers(60, 120)))
         # 1/s between 1e-4 and 1.5e-3 1/A: a factor 30 inside the calculated q range of this grid
         rg = float(math.sqrt(1.5)/10**rng.uniform(-4.0, -2.83))
+        if rep >= 6:
+            # long log grids (65-200 points over 2-4 decades); 1/s a factor 30 inside the q range the calculator of
+            # this data set uses
+            xi = np.logspace(float(rng.uniform(1.0, 2.0)), float(rng.uniform(4.0, 5.0)), int(rng.choice([65, 129, 150, 193, 200])))
+            qc_ = np.asarray(direct_model.DirectModel(sdata.empty_sesans(xi), sascore.load_model("guinier")).resolution.q_calc, float)
+            inv_ = float(np.exp(rng.uniform(math.log(30*qc_[0]), math.log(qc_[-1]/30))))
+            if rep == 7:
+                inv_ = float(qc_[-1]/30)*float(rng.uniform(0.5, 1.0))     # a small structure: large q matter
+            rg = math.sqrt(1.5)/inv_
+            rec.bucket("via:Gxi:long-log-grid")
         pars = {"rg": rg, "scale": float(rng.uniform(0.5, 2.0))}
         # guinier: I = scale exp(-q^2 rg^2/3) -> s^2 = 2 rg^2/3
         s = math.sqrt(2.0/3.0)*rg
